@@ -88,6 +88,44 @@ def loc_discipline(ctx, r):
             pushes = [x for x in q.walk(cs["body"]) if x["k"] == "MethodCall" and x["m"] == "push" and q.show(x["recv"]) == f"st.{tbl}"]
             ok = len(pushes) == 1 and "bytecode_index" in q.show(pushes[0]["args"][0]) and val in q.show(pushes[0]["args"][0])
             r.ob(ok, f"translate_bytecode.rs:create_source_location_tables:{tbl}", TB, cs["l"], f"{tbl} must record (bytecode_index, {val}) when the value changes", sample=f"{tbl}: (bytecode_index, {val})")
+            # each table is run-length encoded on its own: whether it records an entry may depend on nothing but its own last entry
+            others = [t for t in ("filename_table", "lineno_table", "function_name_table") if t != tbl]
+            for pu in pushes:
+                foreign = []
+
+                def anc(node, acc):
+                    if node is pu:
+                        foreign.extend(acc)
+                        return True
+                    if node["k"] == "If":
+                        c = q.show(node["c"])
+                        if any(y is pu for y in q.walk(node["t"])):
+                            return anc_children(node["t"], acc + [("then", c)])
+                        if node.get("e") is not None and any(y is pu for y in q.walk(node["e"])):
+                            return anc_children(node["e"], acc + [("else", c)])
+                        return False
+                    return anc_children(node, acc)
+
+                def anc_children(node, acc):
+                    for ch in q.children(node) if hasattr(q, "children") else _kids(node):
+                        if any(y is pu for y in q.walk(ch)):
+                            return anc(ch, acc)
+                    return False
+
+                def _kids(node):
+                    out = []
+                    for v2 in node.values():
+                        if isinstance(v2, dict) and "k" in v2:
+                            out.append(v2)
+                        elif isinstance(v2, list):
+                            out.extend(x for x in v2 if isinstance(x, dict) and "k" in x)
+                    return out
+
+                anc(cs["body"], [])
+                bad = [(pol, c) for pol, c in foreign if any(o in c for o in others)]
+                r.ob(not bad, f"translate_bytecode.rs:create_source_location_tables:{tbl}:depends-on-another-table", TB, pu["l"],
+                     f"whether {tbl} records an entry depends on another table ({bad}): when the other value changes at the same instruction this table misses its entry, and the fault is reported with the previous function's {val}",
+                     sample=f"{tbl}: recorded independently of the other tables")
     # (5) the VM looks up pc-after-increment with the predecessor entry, in both outcomes of the binary search
     pe = q.find_fn(v, "pc_to_error_location", impl_ty="VmGreenThread")
     if pe is None:
